@@ -57,16 +57,16 @@ PROPS = {
     'C06': dict(tables=True, traits=None, part='all', item_filter='skip', theorems=['DW.Skip.traitSkipped_eq_covers', 'DW.C06_invisible_eq', 'DW.C06_invisible_pcmp', 'DW.C06_invisible_hash',
                                                                          'DW.C06_invisible_debug', 'DW.C06_invisible_zeroize', 'DW.C06_visible_eq',
                                                                          'DW.relevantIdx_unskippable', 'DW.C06_unskippable_clone',
-                                                                         'DW.C06_unskippable_default', 'DW.C06_no_demand_eq', 'DW.C06_skipped_never_mentioned'],
+                                                                         'DW.C06_unskippable_default', 'DW.C06_no_demand_eq', 'DW.C06_skipped_never_mentioned', 'DW.C09_skip_blind', 'DW.C11_skip_blind'],
                 enums=['skip', 'debug', 'zeroize', 'fieldopts', 'lacking'], configs_quick=['default', 'safe', 'zod'], design='7/C06'),
     'C07': dict(traits=['PartialEq', 'PartialOrd'], theorems=['DW.C07_marked_eq', 'DW.C07_marked_pcmp', 'DW.C07_eq_eval', 'DW.C07_pcmp_eval',
                                                                'DW.C07_unaffected_eq', 'DW.C07_unaffected_pcmp', 'DW.C07_operators', 'DW.operators_of_partial_cmp'],
                 enums=['incomparable'], configs_quick=['default', 'safe', 'nightly', 'zod'], design='7/C07'),
     'C08': dict(traits=['Hash'], theorems=['DW.C08_validated', 'DW.C08_transcript', 'DW.C08_iff'], enums=['skip', 'fieldopts', 'foreign', 'lacking'], configs_quick=['default', 'safe', 'zod'], design='7/C08'),
-    'C09': dict(tables=True, traits=['Clone', 'Copy'], theorems=['DW.C09_validated', 'DW.C09_fieldwise', 'DW.C09_shortcut', 'DW.C09_union', 'DW.C09_copy_marker'],
+    'C09': dict(tables=True, traits=['Clone', 'Copy'], theorems=['DW.C09_validated', 'DW.C09_fieldwise', 'DW.C09_shortcut', 'DW.C09_union', 'DW.C09_copy_marker', 'DW.C09_skip_blind'],
                 enums=['bounds', 'skip', 'foreign'], configs_quick=['default', 'safe', 'zod'], design='7/C09'),
     'C10': dict(traits=['Debug'], theorems=['DW.C10_validated', 'DW.C10_transcript', 'DW.C10_names', 'DW.C10_text', 'DW.Fmt.render_struct', 'DW.Fmt.render_tuple'], enums=['debug', 'skip', 'fieldopts', 'foreign', 'lacking'], configs_quick=['default', 'safe', 'zod'], design='7/C10'),
-    'C11': dict(traits=['Default'], theorems=['DW.C11_body', 'DW.C11_validated'], enums=['default', 'foreign'], configs_quick=['default', 'safe', 'zod'], design='7/C11'),
+    'C11': dict(traits=['Default'], theorems=['DW.C11_body', 'DW.C11_validated', 'DW.C11_skip_blind'], enums=['default', 'foreign'], configs_quick=['default', 'safe', 'zod'], design='7/C11'),
     'C12': dict(tables=True, traits=['PartialEq', 'PartialOrd', 'Ord'], theorems=['DW.C12_validated', 'DW.C12_no_ub_eq', 'DW.C12_no_ub_ord', 'DW.C12_safe_no_unsafe'],
                 enums=['incomparable', 'discriminants'], configs_quick=['default', 'safe', 'nightly', 'zod'], unsafe_scan=True, design='7/C12'),
     'C13': dict(tables=True, traits=STD, theorems=['DW.C13_eq_cfg_independent', 'DW.C13_ord_cfg_independent', 'DW.C13_untouched_traits',
